@@ -60,6 +60,8 @@ def gen_cfg(w, r, pure=False):
             op["args"] = [[]]
         if meth == "update":
             op["style"] = r.choice(["list", "iter", "set"])
+            if es and "cfg_arg" not in op and r.random() < 0.15:
+                op["raise_after"] = r.randrange(0, len(es) + 1)
         if meth in ("ior", "isub", "iand", "ixor") and r.random() < 0.2:
             op["style"] = "iter"
         if meth in ("or", "and", "sub", "xor", "eq", "le") and r.random() < 0.4:
